@@ -39,6 +39,7 @@ type kase struct {
 	next    int64
 	sig     []byte
 	issuer  [][]string // attribute tokens "oid=hex"
+	queries []query    // seq lines: the lookups made one after the other on ONE CertificateList object
 }
 
 func oidStr(o []int) string {
@@ -77,12 +78,26 @@ func i64(s string) int64 {
 	return x
 }
 
+// query: one lookup of a `seq` line.
+type query struct {
+	serial *big.Int
+	mode   string
+}
+
 func parse(line string) kase {
 	f := strings.Fields(line)
 	if len(f) != 6 {
 		panic("bad c14 line")
 	}
-	k := kase{serial: bigOf(f[1]), mode: f[2]}
+	k := kase{}
+	if f[1] == "seq" {
+		for _, q := range strings.Split(f[2], ",") {
+			i := strings.LastIndex(q, ":")
+			k.queries = append(k.queries, query{bigOf(q[:i]), q[i+1:]})
+		}
+	} else {
+		k.serial, k.mode = bigOf(f[1]), f[2]
+	}
 	if f[3] != "-" {
 		for _, s := range strings.Split(f[3], ",") {
 			i := strings.LastIndex(s, ":")
@@ -192,6 +207,9 @@ func build(k kase) (*pkix.CertificateList, *x509.Certificate) {
 		cl.TBSCertList.Extensions = append(cl.TBSCertList.Extensions,
 			pkix.Extension{Id: asn1.ObjectIdentifier(e.oid), Critical: e.crit, Value: e.val})
 	}
+	if k.serial == nil {
+		return cl, nil
+	}
 	return cl, &x509.Certificate{SerialNumber: new(big.Int).Set(k.serial)}
 }
 
@@ -252,27 +270,38 @@ func eqOid(a, b []int) bool {
 	return true
 }
 
-func exec(line string) zv.Out {
-	k := parse(line)
-	cl, cert := build(k)
-	cache := buildCache(cl, k.mode)
-	d, err := crl.CheckCRLForCert(cl, cert, cache)
-	if err != nil || d == nil {
-		return zv.Out{Go: "err", Viol: "CheckCRLForCert returned an error / nil data"}
+// cacheShape records what a cache map holds: key -> index of the revoked entry its pointer refers to (-1: not an entry
+// of this CRL).  Compared before / after lookups: CheckCRLForCert must not touch the map.
+func cacheShape(cl *pkix.CertificateList, m map[string]*pkix.RevokedCertificate) map[string]int {
+	if m == nil {
+		return nil
 	}
-	out := show(d)
-	var viol []string
-	// T3: the property's sentence evaluated independently
-	listed, first := 0, int64(0)
+	sh := map[string]int{}
+	rc := cl.TBSCertList.RevokedCertificates
+	for k, v := range m {
+		sh[k] = -1
+		for i := range rc {
+			if v == &rc[i] {
+				sh[k] = i
+			}
+		}
+	}
+	return sh
+}
+
+// oracle: the property's sentences evaluated independently for one lookup (serial, mode) on the CRL DESCRIBED BY THE LINE
+// (k), whatever object the call was made on.
+func oracle(k kase, serial *big.Int, mode string, d *crl.RevocationData) (viol []string, listed int) {
+	first := int64(0)
 	for _, e := range k.entries {
-		if e.serial.String() == k.serial.String() {
+		if e.serial.String() == serial.String() {
 			if listed == 0 {
 				first = e.t
 			}
 			listed++
 		}
 	}
-	switch k.mode {
+	switch mode {
 	case "n", "fw":
 		if d.IsRevoked != (listed > 0) {
 			viol = append(viol, fmt.Sprintf("IsRevoked=%v but the serial is listed %d times", d.IsRevoked, listed))
@@ -292,17 +321,12 @@ func exec(line string) zv.Out {
 			viol = append(viol, "revoked with an empty cache")
 		}
 	}
-	if k.mode == "fw" { // cache path against the linear path on the same CRL
-		cl2, cert2 := build(k)
-		d2, _ := crl.CheckCRLForCert(cl2, cert2, nil)
-		if d2 == nil || d2.IsRevoked != d.IsRevoked || !d2.RevocationTime.Equal(d.RevocationTime) || !reflect.DeepEqual(d, d2) {
-			viol = append(viol, "first-wins cache and linear search disagree")
-		}
-	}
-	// extension classification, recomputed
+	// extension classification, recomputed from the line
 	var crit, non []string
+	num := 0
 	for _, e := range k.exts {
 		if eqOid(e.oid, crlNumOID) {
+			num++
 			continue
 		}
 		c := "0"
@@ -325,9 +349,113 @@ func exec(line string) zv.Out {
 	if showExts(d.UnknownCriticalCRLExtensions) != j(crit) || showExts(d.UnknownCRLExtensions) != j(non) {
 		viol = append(viol, "extension classification is not the order-preserving critical / non-critical partition")
 	}
+	if num == 0 && d.CRLExtensions.CRLNumber != 0 {
+		viol = append(viol, "CRL number reported although the CRL has no CRL-number extension")
+	}
+	pristine, _ := build(k)
 	if d.Version != k.ver || d.ThisUpdate.Unix() != k.this || d.NextUpdate.Unix() != k.next || zv.Hex(d.CRLSignatureValue) != zv.Hex(k.sig) ||
-		!reflect.DeepEqual(d.Issuer.OriginalRDNS, cl.TBSCertList.Issuer) {
+		!reflect.DeepEqual(d.Issuer.OriginalRDNS, pristine.TBSCertList.Issuer) {
 		viol = append(viol, "header fields not copied")
+	}
+	return viol, listed
+}
+
+// scribble overwrites the top-level elements of the returned extension lists: they are results, the caller owns them;
+// the CRL handed in must not change through them.
+func scribble(d *crl.RevocationData) {
+	for i := range d.UnknownCRLExtensions {
+		d.UnknownCRLExtensions[i] = pkix.Extension{Id: asn1.ObjectIdentifier{0, 0}, Critical: true}
+	}
+	for i := range d.UnknownCriticalCRLExtensions {
+		d.UnknownCriticalCRLExtensions[i] = pkix.Extension{Id: asn1.ObjectIdentifier{0, 1}}
+	}
+}
+
+func extTags(k kase, tags []string) []string {
+	nnum := 0
+	for _, e := range k.exts {
+		if eqOid(e.oid, crlNumOID) {
+			nnum++
+		}
+	}
+	return append(tags, fmt.Sprintf("crlnum-exts=%d", min(nnum, 2)), fmt.Sprintf("exts<=%d", (len(k.exts)/2+1)*2))
+}
+
+// extOrderTag: where the extensions that are NOT copied to the non-critical list (CRL number, critical) stand relative
+// to the non-critical unknown ones — the orders an in-place filter over the CRL's own slice gets wrong.
+func extOrderTag(k kase) string {
+	firstNon, lastNon := -1, -1
+	for i, e := range k.exts {
+		if !eqOid(e.oid, crlNumOID) && !e.crit {
+			if firstNon < 0 {
+				firstNon = i
+			}
+			lastNon = i
+		}
+	}
+	if firstNon < 0 {
+		return "ext-order:no-noncritical"
+	}
+	before, between, after := false, false, false
+	for i, e := range k.exts {
+		if eqOid(e.oid, crlNumOID) || e.crit {
+			switch {
+			case i < firstNon:
+				before = true
+			case i > lastNon:
+				after = true
+			default:
+				between = true
+			}
+		}
+	}
+	return fmt.Sprintf("ext-order:special-before=%v,between=%v,after=%v", before, between, after)
+}
+
+func exec(line string) zv.Out {
+	k := parse(line)
+	if k.queries != nil {
+		return execSeq(k)
+	}
+	cl, cert := build(k)
+	pristine, _ := build(k)
+	cache := buildCache(cl, k.mode)
+	shape := cacheShape(cl, cache)
+	d, err := crl.CheckCRLForCert(cl, cert, cache)
+	if err != nil || d == nil {
+		return zv.Out{Go: "err", Viol: "CheckCRLForCert returned an error / nil data"}
+	}
+	out := show(d)
+	viol, listed := oracle(k, k.serial, k.mode, d)
+	if k.mode == "fw" { // cache path against the linear path on the same CRL
+		cl2, cert2 := build(k)
+		d2, _ := crl.CheckCRLForCert(cl2, cert2, nil)
+		if d2 == nil || d2.IsRevoked != d.IsRevoked || !d2.RevocationTime.Equal(d.RevocationTime) || !reflect.DeepEqual(d, d2) {
+			viol = append(viol, "first-wins cache and linear search disagree")
+		}
+	}
+	// the inputs are only read
+	if !reflect.DeepEqual(cl, pristine) || cert.SerialNumber.Cmp(k.serial) != 0 || !reflect.DeepEqual(cacheShape(cl, cache), shape) {
+		viol = append(viol, "CheckCRLForCert modified its inputs (CertificateList / certificate / cache)")
+	}
+	if len(viol) == 0 {
+		if scribble(d); !reflect.DeepEqual(cl, pristine) {
+			viol = append(viol, "the returned extension lists share their backing array with the CertificateList handed in")
+		}
+	}
+	// no state is carried from one CertificateList to another: a lookup on an unrelated CRL (CRL number 424242, one
+	// critical and one non-critical extension) in between does not change the answer for this one
+	if len(viol) == 0 && len(k.exts) > 0 {
+		dk := kase{serial: big.NewInt(5), mode: "n", entries: []entry{{big.NewInt(5), 77}}, ver: 1, this: 10, next: 20,
+			exts: []ext{{crlNumOID, false, []byte{2, 3, 0x06, 0x79, 0x32}}, {[]int{2, 5, 29, 28}, true, []byte{0x30, 0}}, {[]int{2, 5, 29, 35}, false, []byte{0x30, 0}}}}
+		dcl, dcert := build(dk)
+		if dd, err := crl.CheckCRLForCert(dcl, dcert, nil); err != nil || dd.CRLExtensions.CRLNumber != 424242 || !dd.IsRevoked {
+			viol = append(viol, "lookup on the decoy CRL (number 424242, serial listed) is wrong")
+		}
+		cl3, cert3 := build(k)
+		if d3, _ := crl.CheckCRLForCert(cl3, cert3, buildCache(cl3, k.mode)); d3 == nil || show(d3) != out {
+			viol = append(viol, "the same lookup gives another answer after a lookup on an unrelated CRL: state is carried between calls")
+		}
 	}
 	tags := []string{"mode=" + k.mode, fmt.Sprintf("listed=%d", min(listed, 3)), fmt.Sprintf("entries<=%d", (len(k.entries)/4+1)*4)}
 	if k.serial.Sign() < 0 {
@@ -336,21 +464,78 @@ func exec(line string) zv.Out {
 	if k.serial.BitLen() > 64 {
 		tags = append(tags, "huge-serial")
 	}
+	tags = extTags(k, tags)
 	nnum := 0
 	for _, e := range k.exts {
 		if eqOid(e.oid, crlNumOID) {
 			nnum++
 		}
 	}
-	tags = append(tags, fmt.Sprintf("crlnum-exts=%d", min(nnum, 2)), fmt.Sprintf("exts<=%d", (len(k.exts)/2+1)*2))
 	if nnum > 0 {
-		if d.CRLExtensions.CRLNumber != 0 {
-			tags = append(tags, "crlnum-decoded")
-		} else {
+		if strings.Contains(out, " num=0 ") {
 			tags = append(tags, "crlnum-zero-or-undecodable")
+		} else {
+			tags = append(tags, "crlnum-decoded")
 		}
 	}
 	return zv.Out{Go: out, Viol: strings.Join(viol, "; "), Tags: tags}
+}
+
+// execSeq: 2..4 lookups with different certificates, with and without cache, on ONE *pkix.CertificateList and on cache
+// maps built once from it.  Every lookup is compared (T2) with the model evaluated on the ORIGINAL CRL value and (T3)
+// with the property restated on the line's CRL and with the same lookup on a freshly built CRL; after every call the
+// CertificateList, the caches and the certificate are compared deeply with what was handed in.
+func execSeq(k kase) zv.Out {
+	cl, _ := build(k)
+	pristine, _ := build(k)
+	caches := map[string]map[string]*pkix.RevokedCertificate{}
+	shapes := map[string]map[string]int{}
+	var outs, viol []string
+	modeSeq := ""
+	for i, q := range k.queries {
+		if _, ok := caches[q.mode]; !ok {
+			caches[q.mode] = buildCache(cl, q.mode)
+			shapes[q.mode] = cacheShape(cl, caches[q.mode])
+		}
+		modeSeq += "/" + q.mode
+		cert := &x509.Certificate{SerialNumber: new(big.Int).Set(q.serial)}
+		d, err := crl.CheckCRLForCert(cl, cert, caches[q.mode])
+		if err != nil || d == nil {
+			return zv.Out{Go: "err", Viol: fmt.Sprintf("lookup %d: CheckCRLForCert returned an error / nil data", i+1)}
+		}
+		outs = append(outs, show(d))
+		v, _ := oracle(k, q.serial, q.mode, d)
+		for _, x := range v {
+			viol = append(viol, fmt.Sprintf("lookup %d of %d on the same CertificateList: %s", i+1, len(k.queries), x))
+		}
+		// the same lookup on a fresh object
+		kf := k
+		kf.serial = q.serial
+		clf, certf := build(kf)
+		df, _ := crl.CheckCRLForCert(clf, certf, buildCache(clf, q.mode))
+		if df == nil || show(df) != show(d) || !reflect.DeepEqual(df, d) {
+			viol = append(viol, fmt.Sprintf("lookup %d of %d on the same CertificateList differs from the same lookup on a fresh one", i+1, len(k.queries)))
+		}
+		if !reflect.DeepEqual(cl, pristine) {
+			viol = append(viol, fmt.Sprintf("lookup %d modified the CertificateList handed in", i+1))
+		}
+		if cert.SerialNumber.Cmp(q.serial) != 0 {
+			viol = append(viol, fmt.Sprintf("lookup %d modified the certificate handed in", i+1))
+		}
+		for m, c := range caches {
+			if !reflect.DeepEqual(cacheShape(cl, c), shapes[m]) {
+				viol = append(viol, fmt.Sprintf("lookup %d modified the %s cache", i+1, m))
+			}
+		}
+		if len(viol) > 0 {
+			break
+		}
+		if scribble(d); !reflect.DeepEqual(cl, pristine) {
+			viol = append(viol, fmt.Sprintf("lookup %d: the returned extension lists share their backing array with the CertificateList handed in", i+1))
+		}
+	}
+	tags := extTags(k, []string{fmt.Sprintf("seq:lookups=%d", len(k.queries)), "seq:modes=" + modeSeq[1:], "seq:" + extOrderTag(k)})
+	return zv.Out{Go: strings.Join(outs, " | "), Viol: strings.Join(viol, "; "), Tags: tags}
 }
 
 // ---- generators ----
@@ -387,6 +572,13 @@ func fmtCase(k kase) string {
 			}
 		}
 		iss = strings.Join(s, ";")
+	}
+	if k.queries != nil {
+		var q []string
+		for _, x := range k.queries {
+			q = append(q, x.serial.String()+":"+x.mode)
+		}
+		return fmt.Sprintf("c14 seq %s %s %s %d/%d/%d/%s/%s", strings.Join(q, ","), es, xs, k.ver, k.this, k.next, zv.Hex(k.sig), iss)
 	}
 	return fmt.Sprintf("c14 %s %s %s %s %d/%d/%d/%s/%s", k.serial.String(), k.mode, es, xs, k.ver, k.this, k.next, zv.Hex(k.sig), iss)
 }
@@ -555,6 +747,23 @@ func gen(g *zv.Gen) {
 		}
 		hdr(&k)
 		g.Emit(fmtCase(k))
+		// the same CRL looked up 2..4 times as ONE object, with other certificates and cache modes
+		if r.Chance(20) {
+			ks := k
+			nq := 2 + r.Intn(3)
+			ks.queries = []query{{k.serial, k.mode}}
+			for len(ks.queries) < nq {
+				q := query{pool[r.Intn(len(pool))], modes[r.Intn(4)]}
+				if r.Chance(70) {
+					q.serial = pool[r.Intn(np)]
+				}
+				if r.Chance(50) {
+					q.mode = "n"
+				}
+				ks.queries = append(ks.queries, q)
+			}
+			g.Emit(fmtCase(ks))
+		}
 	}
 	// 3. CRL-number decoding on its own: every 1- and 2-byte integer body, boundary widths
 	for b0 := 0; b0 < 256; b0++ {
@@ -574,9 +783,67 @@ func gen(g *zv.Gen) {
 			g.Emit(fmtCase(k))
 		}
 	}
+	// 4. extension ORDER x repeated lookups on one object: every list of up to 4 (thorough: 5) extensions over
+	//    {CRL number, critical unknown, non-critical unknown A, non-critical unknown B, critical CRL number} — the CRL
+	//    number / the critical extension before, between and after the non-critical ones — each looked up 2..4 times
+	//    (listed, unlisted, listed-negative certificate) under 8 cache-mode sequences
+	kinds := []ext{
+		{crlNumOID, false, []byte{2, 2, 0x0d, 0xc5}},                 // CRL number 3525
+		{[]int{2, 5, 29, 28}, true, []byte{0x30, 0x00}},              // issuingDistributionPoint, critical
+		{[]int{2, 5, 29, 35}, false, []byte{0x30, 3, 0x80, 1, 0xaa}}, // authorityKeyIdentifier
+		{[]int{2, 5, 29, 46}, false, []byte{0x30, 0x00}},             // freshestCRL
+		{crlNumOID, true, []byte{2, 1, 0x11}},                        // a second, critical CRL number (17)
+	}
+	modeSeqs := [][]string{{"n", "n"}, {"n", "n", "n"}, {"n", "fw", "n"}, {"fw", "lw", "e", "n"}, {"lw", "n"}, {"e", "e", "n"}, {"fw", "fw", "fw"}, {"n", "lw", "fw", "e"}}
+	qSerials := []*big.Int{big.NewInt(7), big.NewInt(6), big.NewInt(-7), big.NewInt(9)}
+	seqEntries := []entry{{big.NewInt(7), 1577934245}, {big.NewInt(-7), 1577934246}, {big.NewInt(9), 1577934247}, {big.NewInt(7), 1577934248}}
+	maxx := g.N(4, 5)
+	cnt := 0
+	var recx func(prefix []ext)
+	recx = func(prefix []ext) {
+		if len(prefix) > 0 {
+			for v := 0; v < 2; v++ {
+				ms := modeSeqs[(cnt+v*3)%len(modeSeqs)]
+				k := kase{entries: seqEntries, exts: prefix, ver: 1, this: 1577934000, next: 1578934000, sig: []byte{1, 2, 3},
+					issuer: [][]string{{issuerToks[0]}, {issuerToks[1], issuerToks[2]}}}
+				for i, m := range ms {
+					k.queries = append(k.queries, query{qSerials[(cnt+i+v)%len(qSerials)], m})
+				}
+				g.Emit(fmtCase(k))
+			}
+			cnt++
+		}
+		if len(prefix) == maxx {
+			return
+		}
+		for _, x := range kinds {
+			recx(append(append([]ext{}, prefix...), x))
+		}
+	}
+	recx(nil)
+	// 5. the exhaustive entry lists of 1. (up to length 3) looked up with all four queries in a row on one object,
+	//    per cache mode and mixed
+	var recs func(prefix []entry)
+	recs = func(prefix []entry) {
+		qs := append(append([]*big.Int{}, ser...), absent)
+		for _, ms := range [][]string{{"n", "n", "n", "n"}, {"fw", "fw", "fw", "fw"}, {"lw", "lw", "lw", "lw"}, {"n", "fw", "lw", "e"}} {
+			k := kase{entries: prefix, ver: 1, this: 1000, next: 2000, exts: []ext{kinds[0], kinds[2], kinds[1]}}
+			for i, m := range ms {
+				k.queries = append(k.queries, query{qs[(i+len(prefix))%4], m})
+			}
+			g.Emit(fmtCase(k))
+		}
+		if len(prefix) == 3 {
+			return
+		}
+		for _, s := range ser {
+			recs(append(append([]entry{}, prefix...), entry{s, int64(100 + len(prefix))}))
+		}
+	}
+	recs(nil)
 }
 
 func init() {
 	zv.Register(&zv.Prop{ID: "C14", Topic: "c14", Gen: gen, Exec: exec, Timeout: 60 * time.Second, // generous: a loaded machine must not produce a false timeout
-		Rule: "every revoked-entry list up to length 4 (quick) / 6 (thorough) over 3 serials (positive, negative, >2^128) x 4 query serials x {no cache, first-wins cache, last-wins cache, empty cache}; random CRLs (0..13 entries with duplicate, huge and negative serials; 0..5 extensions incl. CRL-number values valid and malformed in every way, look-alike OIDs, critical flags; random header and issuer); all 1-byte and boundary 2..10-byte CRL-number integers. A case is one distinct (CRL, query, cache mode). T3 = independent restatement of the property (first listed entry, cache = linear, order-preserving partition, copied header)"})
+		Rule: "every revoked-entry list up to length 4 (quick) / 6 (thorough) over 3 serials (positive, negative, >2^128) x 4 query serials x {no cache, first-wins cache, last-wins cache, empty cache}; random CRLs (0..13 entries with duplicate, huge and negative serials; 0..5 extensions incl. CRL-number values valid and malformed in every way, look-alike OIDs, critical flags; random header and issuer); all 1-byte and boundary 2..10-byte CRL-number integers. seq lines: 2..4 lookups with different certificates, with and without cache, on ONE *pkix.CertificateList object and on cache maps built once from it — every extension list of up to 4 (thorough: 5) extensions over {CRL number, critical unknown, two non-critical unknown, critical CRL number} (CRL number / critical extension before, between and after the non-critical ones) x 8 cache-mode sequences, every entry list up to length 3 x all four queries in a row, and a fifth of the random CRLs; each lookup is compared with the model evaluated on the ORIGINAL CRL value and with the same lookup on a freshly built CRL. A case is one distinct (CRL, query or query sequence, cache mode). T3 = independent restatement of the property on the CRL described by the line (first listed entry, cache = linear, order-preserving partition, CRL number only from a CRL-number extension, copied header) + inputs are only read: after every call the CertificateList (reflect.DeepEqual with a pristine copy), the certificate and the cache maps are unchanged, also after the caller overwrites the returned extension lists (no shared backing array); and a lookup on an unrelated CRL in between does not change the answer (no state carried between CertificateLists)"})
 }
